@@ -25,6 +25,7 @@ import (
 var subst = map[string][2]string{
 	"os":                                   {"verifsim/simos", "os"},
 	"io/ioutil":                            {"verifsim/simioutil", "ioutil"},
+	"path/filepath":                        {"verifsim/simfilepath", "filepath"},
 	"time":                                 {"verifsim/simtime", "time"},
 	"sync":                                 {"verifsim/simsync", "sync"},
 	"math/rand":                            {"verifsim/simrand", "rand"},
